@@ -515,6 +515,12 @@ func configMutants0() []confMut {
 		out = append(out, confMut{fmt.Sprintf("json-queue=%v", v), map[string]any{"type": "json", "source": map[string]any{"type": "file", "path": "/ammo"}, "ammo-queue-size": v}})
 		out = append(out, confMut{fmt.Sprintf("json-source=%v", v), map[string]any{"type": "json", "source": v}})
 	}
+	for _, typ := range []string{"uri", "uripost", "raw", "http/json"} {
+		for _, pre := range []bool{false, true} {
+			// a filter that matches nothing in a well-formed file is an error ("no ammo"), not a crash
+			out = append(out, confMut{fmt.Sprintf("chosencases-nomatch-%s-preload=%v", typ, pre), map[string]any{"type": typ, "file": "/ammo." + strings.ReplaceAll(typ, "/", ""), "preload": pre, "passes": 1, "chosencases": []any{"nomatch"}}})
+		}
+	}
 	out = append(out, confMut{"uris+file", map[string]any{"type": "uri", "file": "/ammo", "uris": []any{"/a"}}})
 	out = append(out, confMut{"raw+uris", map[string]any{"type": "raw", "uris": []any{"/a"}}})
 	out = append(out, confMut{"nofile", map[string]any{"type": "uri"}})
@@ -533,6 +539,10 @@ type c13cRun struct {
 
 func (r *c13cRun) scenario(x *vs.X) func(end, msg string) error {
 	_ = afero.WriteFile(memfs, "/ammo", []byte("/a t\n/b\n"), 0o644)
+	_ = afero.WriteFile(memfs, "/ammo.uri", []byte("/a t\n/b\n"), 0o644)
+	_ = afero.WriteFile(memfs, "/ammo.uripost", []byte("1 /a t\nx\n0 /b\n"), 0o644)
+	_ = afero.WriteFile(memfs, "/ammo.raw", []byte("19 t\nGET / HTTP/1.1\r\n\r\n\n"), 0o644)
+	_ = afero.WriteFile(memfs, "/ammo.httpjson", []byte(`{"tag":"t","uri":"/a","method":"GET","host":"h"}`+"\n"), 0o644)
 	_ = afero.WriteFile(memfs, "/props", []byte("k=/ammo\nn=2\nb=true\n"), 0o644)
 	p, err := newProvider(r.m.conf)
 	r.cerr, r.drv = err, nil
